@@ -72,7 +72,7 @@ def rich_world(seed, n_chroms=6, genes_per_chrom=3, groups=3, multimappers=True,
     rng = w.rng
     for ci in range(n_chroms):
         cname = "chr%d" % (ci + 1)
-        w.add_chrom(cname, 60000 + ci * 4321 + genes_per_chrom * 9000 + extra_len + (170000 if zoo else 0))
+        w.add_chrom(cname, 60000 + ci * 4321 + genes_per_chrom * 9000 + extra_len + (178000 if zoo else 0))
         pos = 1500
         for gi in range(genes_per_chrom):
             gid = "G%d_%d" % (ci + 1, gi + 1)
@@ -733,6 +733,26 @@ def mixed_strand_gene_locus(w, gid, chrom, p):
     return [g, o], p + 4300
 
 
+def early_end_isoform_locus(w, gid, chrom, p, strand):
+    """t1 = e1..e4, t2 = an unspliced isoform that ends INSIDE e1 (e4 for '-'), and an unannotated isoform e1-e3-e4: the end of an annotated
+    isoform of the gene falls into the first (last) exon of the novel model."""
+    e = [(p, p + 400), (p + 1000, p + 1200), (p + 1900, p + 2150), (p + 2800, p + 3300)]
+    g = Gene(gid, chrom, strand)
+    g.transcripts.append(Transcript(gid + ".t1", gid, chrom, strand, list(e), True, "early-end-host"))
+    short = (e[0][0], e[0][0] + 150) if strand == "+" else (e[3][1] - 150, e[3][1])
+    g.transcripts.append(Transcript(gid + ".t2", gid, chrom, strand, [short], True, "isoform-ending-inside-a-terminal-exon"))
+    g.hidden.append(Transcript(gid + ".h1", gid, chrom, strand, [e[0], e[2], e[3]] if strand == "+" else [e[0], e[1], e[3]], False, "novel-over-the-early-end"))
+    for t in g.transcripts + g.hidden:
+        for intr in t.introns:
+            w.plant_sites(chrom, intr, strand)
+    w.genes.append(g)
+    tail = dict(polya=30) if strand == "+" else dict(polyt=30, flag=16)
+    for t, n in ((g.transcripts[0], 6), (g.hidden[0], 12)):
+        for _ in range(n):
+            w.make_read(chrom, list(t.exons), truth={"src": t.id, "class": "exact"}, **tail)
+    return g, p + 3300
+
+
 def near_site_novel_locus(w, gid, chrom, p, strand):
     """t1 = e1..e5, t2 = e1-e3-e5 (annotated); the unannotated isoform e1-e2-e3-e5' is a new combination of annotated introns except
     that its last junction (first for '-') sits 3 bp away from the annotated site of t2's intron: that intron is unannotated, although it
@@ -805,7 +825,7 @@ def gene_valley_locus(w, gid, chrom, p, strand):
 
 ZOO_ALL = ("ambiguous_only", "twins", "contested", "intronic", "apa", "alt_terminal", "shifted_site", "shared_chain", "same_coords",
            "one_bp_exon", "lowmapq_two_exon", "mono_only", "gap_gene", "gene_valley", "odd_chroms",
-           "near_site_novel", "low_cov_novel", "two_exon_alt_polya", "dense_two_exon", "antisense_shared_exon", "micro_exon_sibling", "mixed_strand_gene", "two_cluster")
+           "near_site_novel", "low_cov_novel", "two_exon_alt_polya", "dense_two_exon", "antisense_shared_exon", "micro_exon_sibling", "mixed_strand_gene", "two_cluster", "early_end_isoform")
 ZOO_NO_TIES = tuple(z for z in ZOO_ALL if z != "twins")
 
 
@@ -973,6 +993,9 @@ def add_zoo(w, parts=ZOO_ALL):
             # one reference isoform seen from two separate read clusters (5' and 3' fragments on either side of a long intron)
             two_cluster_gene(w, "ZTC" + tag, chrom, _free_pos(w, chrom, 3000), "+-"[(ci // 2) % 2], n_iso=1 + (ci // 2) % 2)
             placed.add("two_cluster")
+        if "early_end_isoform" in parts and room(6500):
+            early_end_isoform_locus(w, "ZEE" + tag, chrom, _free_pos(w, chrom), "+-"[ci % 2])
+            placed.add("early_end_isoform")
         if "mixed_strand_gene" in parts and ci % 2 == 1 and room(7500):
             mixed_strand_gene_locus(w, "ZMG" + tag, chrom, _free_pos(w, chrom))
             placed.add("mixed_strand_gene")
